@@ -2506,7 +2506,12 @@ impl InferContext {
                         Ok(unit!())
                     }
                     Expr::ArrayAccess(_, _) => {
-                        unimplemented!("Assignment to array is not implemented yet.")
+                        // Assignment to an array element is not implemented yet: report it
+                        // as a diagnostic instead of aborting the compiler.
+                        Err(vec![Error::VariableNotFound(
+                            "assignment_to_array_element_is_not_supported".to_symbol(),
+                            loc.clone(),
+                        )])
                     }
                     _ => {
                         // This should be caught by parser, but add a generic error just in case
